@@ -211,20 +211,7 @@ func (d *disconnectHandler) handleGracePeriodExpired() {
 			)...,
 		)
 
-		d.election.becomeFollower()
-
-		d.election.mu.RLock()
-		onDemote := d.election.onDemote
-		d.election.mu.RUnlock()
-
-		if onDemote != nil {
-			log.Info("leader_demoted",
-				append(d.election.logWithContext(d.election.ctx),
-					zap.String("reason", "connection_loss"),
-				)...,
-			)
-			onDemote()
-		}
+		d.election.stepDown("connection_loss")
 	}
 }
 
